@@ -122,7 +122,9 @@ def drive_hist(case):
 
 
 def solo_call(k):
-    return k, one_call(k)[0]
+    # the reference result of a call made alone: in a fresh child, like every history (a pool worker serves several calls)
+    rec = drive_hist({'id': 'solo%d' % k, 'hist': [k], 'solotab': {str(k): ''}})
+    return k, (rec['results'] or ['no-result'])[0]
 
 
 # ------------------------------------------------------------------ server emulation
